@@ -5,6 +5,7 @@ import (
 	"os"
 	"path/filepath"
 	"strconv"
+	"strings"
 )
 
 // C07 (Arith.tla, BigInt.tla), C15 (Bridge.tla), C06 (RoundTrip), C05 (Robust).
@@ -53,6 +54,40 @@ func init() {
 			jf.Close()
 			fc, fres := c.replay("arithf", joined, replayOpts{chunk: 16})
 			c.judge("arithf", fc, fres, func(cs, res map[string]J) string { in, _ := res["input"].(string); return in })
+			c.exhaustive = true
+		},
+	}
+}
+
+func init() {
+	plans["C15"] = &plan{
+		level: "model_checking",
+		rule: "Bridge.tla defines ToTerm(value, double_quotes) and ScanInt; TLC enumerates every string of <= NS characters over 17 character classes (letter, digit, space, both quotes, backslash, '.', ':', '-', newline, NUL, '?', " +
+			"'%', '(', 2-byte, 3-byte and non-BMP characters) x {codes, chars, atom}, numbers and nested slices, and every boundary integer of each width x every destination width. For a value case the placeholder's term is compared " +
+			"structurally with the model's (character codes, no text), `X = ?, Y = <literal>, X == Y` is checked with the harness's own escaper, the answer is scanned back into the original Go type (exact or error) and both " +
+			"argument-count mismatches must be errors. For a scan case the destination must hold exactly the value when it fits and Scan must return an error when it does not. distinct_nontrivial = distinct cases containing a " +
+			"syntax-relevant character or an out-of-range integer",
+		assume:  []string{"an error is always an allowed outcome of Scan (the statement says exact or error)", "the text \"?\" is not used as a literal under double_quotes=atom (any atom equal to the placeholder is a placeholder for the parser)"},
+		trusted: []string{"TLC", "Bridge.tla", "the harness's 20-line escaper for the literal side of the law"},
+		run: func(c *checkCtx) {
+			r := c.mcHolds("Bridge", "Bridge_"+c.tier+".cfg", tlcOpts{})
+			cases, results := c.replay("bridge", r.cases, replayOpts{chunk: 16})
+			c.judge("bridge", cases, results, func(cs, res map[string]J) string {
+				in, _ := res["input"].(string)
+				if cs["kind"] == "scanint" {
+					if f, _ := cs["fits"].(bool); !f {
+						return in
+					}
+					return ""
+				}
+				b, _ := json.Marshal(cs["val"])
+				for _, code := range []string{"39", "34", "92", "46", "58", "10", "0", "63", "37", "40"} {
+					if strings.Contains(string(b), ","+code+"]") || strings.Contains(string(b), "["+code+",") || strings.Contains(string(b), "["+code+"]") || strings.Contains(string(b), ","+code+",") {
+						return in
+					}
+				}
+				return ""
+			})
 			c.exhaustive = true
 		},
 	}
